@@ -623,12 +623,28 @@ func (c *clipperBase) doSplitOp(outrec *OutRec, splitOp *OutPt) {
 		prevOp.next = newOp
 	}
 
-	if !(absArea2 > 1) || (!(absArea2 > absArea1) && ((area2 > 0) != (area1 > 0))) {
+	if !(absArea2 > 1) {
 		return
+	}
+	// an opposite-sign triangle is normally a twisted loop outside the remaining path and is
+	// dropped, but one that lies inside the remaining path is a hole of it and must be kept
+	isHoleOfPath := false
+	if !(absArea2 > absArea1) && ((area2 > 0) != (area1 > 0)) {
+		tri := &OutPt{pt: ip}
+		op2 := &OutPt{pt: splitOp.pt, prev: tri}
+		op3 := &OutPt{pt: splitOp.next.pt, prev: op2, next: tri}
+		tri.next, tri.prev, op2.next = op2, op3, op3
+		if !path1InsidePath2(tri, prevOp) {
+			return
+		}
+		isHoleOfPath = true
 	}
 
 	newOutRec := c.newOutRec()
 	newOutRec.owner = outrec.owner
+	if isHoleOfPath {
+		newOutRec.owner = outrec
+	}
 	splitOp.outrec = newOutRec
 	splitOp.next.outrec = newOutRec
 
